@@ -172,20 +172,41 @@ theorem C03_into_from_graph (s : State) (h : Inv s) :
   GMProofs.roundTrip_spec s h
 
 /-- the compact numbering is the list position, in both directions: `to_index` and `from_index` are
-inverse to each other on nodes and on edge ids. -/
+inverse to each other on nodes and on edge ids.  For edge ids: `to_index((a, b)) = i` iff `from_index(i)`
+is the canonical form `edge_key(a, b)` of the id (the id itself when directed, the ascending pair when
+undirected — either orientation of an undirected edge is accepted since the repair of D33), and
+`from_index(i) = (a, b)` implies `to_index((a, b)) = i`. -/
 theorem C03_index_roundtrip (s : State) (h : Inv s) :
     (∀ n i, (step s (.toIndex n)).2 = .nat i ↔ (step s (.fromIndex i)).2 = .nat n) ∧
-    (∀ a b i, (step s (.edgeToIndex a b)).2 = .nat i ↔ (step s (.edgeFromIndex i)).2 = .pair a b) := by
-  constructor
+    (∀ a b i, (step s (.edgeToIndex a b)).2 = .nat i ↔
+      (step s (.edgeFromIndex i)).2 = .pair (edgeKey s.directed a b).1 (edgeKey s.directed a b).2) ∧
+    (∀ a b i, (step s (.edgeFromIndex i)).2 = .pair a b → (step s (.edgeToIndex a b)).2 = .nat i) := by
+  have hedge : ∀ a b i, (step s (.edgeToIndex a b)).2 = .nat i ↔
+      (step s (.edgeFromIndex i)).2 = .pair (edgeKey s.directed a b).1 (edgeKey s.directed a b).2 := by
+    intro a b i
+    rw [C03W4.edgeToIndex_iff s h, C03W4.edgeFromIndex_iff]
+  refine ⟨?_, hedge, ?_⟩
   · intro n i
     have := GMProofs.indexOf?_eq_some_iff s.nodes h.nodesNodup n i
     simp only [step]
     cases h1 : IMap.indexOf? s.nodes n <;> cases h2 : s.nodes[i]? <;> simp_all
-  · intro a b i
-    have := GMProofs.indexOf?_eq_some_iff s.edges h.edgesNodup (a, b) i
-    simp only [step]
-    cases h1 : IMap.indexOf? s.edges (a, b) <;> cases h2 : s.edges[i]? <;> simp_all
-    all_goals grind
+  · intro a b i hf
+    rw [hedge]
+    have hk : edgeKey s.directed a b = (a, b) := by
+      obtain ⟨w, hw⟩ := (C03W4.edgeFromIndex_iff s i a b).1 hf
+      have hm : (a, b, w) ∈ allEdges s := List.mem_of_getElem? hw
+      have hg := (GMProofs.allEdges_ok s h).2.1 a b w hm
+      have hs : (IMap.get? s.edges (edgeKey s.directed a b)).isSome = true := by
+        have : (abs s).w a b = IMap.get? s.edges (edgeKey s.directed a b) := rfl
+        rw [← this, hg]; rfl
+      have hmem : ((a, b), w) ∈ s.edges := by
+        simp only [allEdges, List.mem_map] at hm
+        obtain ⟨⟨⟨x, y⟩, w'⟩, hm, he⟩ := hm
+        simp only [Prod.mk.injEq] at he
+        obtain ⟨rfl, rfl, rfl⟩ := he
+        exact hm
+      exact GMProofs.canon_key s h a b (by rw [GMProofs.get?_of_mem _ h.edgesNodup _ _ hmem]; rfl)
+    rw [hk]; exact hf
 
 /-- under the invariant the internal "cannot happen" sites are not reached: `remove_edge` does not trip
 its `debug_assert!`, the `edges`/`edges_directed` iterators never reach `unreachable!()`, `into_graph`'s
@@ -244,28 +265,62 @@ open PetgraphModel.OrderedGraphSpec
 
 ### goal 1 — exact answers of the numbering and of `Build::add_edge` / `update_edge` -/
 
-/-- `EdgeIndexable::to_index((a, b))` exactly: it answers `i` iff `all_edges()` lists `(a, b, _)` at
-position `i`, and it panics ("edge not found") unless `(a, b)` is an edge named the way `all_edges()`
-names it — its own orientation when directed, the ascending pair when undirected.  (So the edge id
-`(b, a)`, `b > a`, that `edges(b)` / `Build::update_edge(b, a, _)` hand out for an undirected edge is
-refused: reported as a candidate defect; `OutOk` tolerates exactly this panic and no other.) -/
+/-- `EdgeIndexable::to_index((a, b))` exactly (after the repair of D33, /repo 30a7cbc): it answers `i` iff
+`all_edges()` lists the canonical name of the pair — `edge_key(a, b)`: the pair itself when directed, the
+ascending pair when undirected — at position `i`, and it panics ("edge not found") iff `(a, b)` is not an
+edge; on an undirected graph both orientations of a pair get the same answer. -/
 theorem C03_edge_to_index_exact (s : State) (h : Inv s) (a b : Nat) :
-    (∀ i, (step s (.edgeToIndex a b)).2 = .nat i ↔ ∃ w, (allEdges s)[i]? = some (a, b, w)) ∧
-    ((step s (.edgeToIndex a b)).2 = .panic ↔
-      ¬ ((abs s).hasEdge a b = true ∧ (s.directed = true ∨ a ≤ b))) :=
-  ⟨fun i => C03W4.edgeToIndex_iff s h a b i, C03W4.edgeToIndex_panic_iff s h a b⟩
+    (∀ i, (step s (.edgeToIndex a b)).2 = .nat i ↔
+      ∃ w, (allEdges s)[i]? = some ((edgeKey s.directed a b).1, (edgeKey s.directed a b).2, w)) ∧
+    ((step s (.edgeToIndex a b)).2 = .panic ↔ (abs s).hasEdge a b = false) ∧
+    (s.directed = false → (step s (.edgeToIndex a b)).2 = (step s (.edgeToIndex b a)).2) :=
+  ⟨fun i => C03W4.edgeToIndex_iff s h a b i, C03W4.edgeToIndex_panic_iff s a b,
+   fun hu => C03W4.edgeToIndex_symm s hu a b⟩
 
-/-- The full-strength reading "every edge id the graph hands out is accepted by
-`EdgeIndexable::to_index`" is FALSE for undirected graphs, in the mirror model as in graphmap.rs
-(`to_index` looks the pair up without `edge_key`): after `add_edge(1, 2, 7)` on an undirected map,
-`edges(2)` yields the edge as `(2, 1, 7)` (id `(2, 1)`), `Build::update_edge(2, 1, _)` returns the id
-`(2, 1)`, but `to_index((2, 1))` panics while `to_index((1, 2))` is `0`.  Reported as a candidate defect;
-the repaired statement is `C03_edge_to_index_exact`. -/
-theorem C03_edge_id_accepted_false_witness :
+/-- The witness of finding D33, repaired: after `add_edge(1, 2, 7)` on an undirected map, `edges(2)` yields
+the edge as `(2, 1, 7)` (id `(2, 1)`), `Build::update_edge(2, 1, _)` returns the id `(2, 1)`, and now
+`to_index((2, 1)) = to_index((1, 2)) = 0` (before /repo 30a7cbc `to_index((2, 1))` panicked: the pair was
+looked up without `edge_key`); `from_index(0)` is the canonical form `(1, 2)`. -/
+theorem C03_D33_witness_repaired :
     let s := (run (State.empty false) [.addEdge 1 2 7]).1
     (step s (.edges 2)).2 = .wtriples [(2, 1, some 7)] ∧ (step s (.buildUpdateEdge 2 1 7)).2 = .pair 2 1 ∧
-    (step s (.edgeToIndex 2 1)).2 = .panic ∧ (step s (.edgeToIndex 1 2)).2 = .nat 0 ∧
+    (step s (.edgeToIndex 2 1)).2 = .nat 0 ∧ (step s (.edgeToIndex 1 2)).2 = .nat 0 ∧
+    (step s (.edgeFromIndex 0)).2 = .pair 1 2 ∧
+    (step (step s (.buildUpdateEdge 2 1 7)).1 (.edgeToIndex 2 1)).2 = .nat 0 ∧
     (abs s).hasEdge 2 1 = true := by decide
+
+/-- the edge id `(x, y)` is accepted in state `s`: `EdgeIndexable::to_index((x, y))` answers some `i` (no
+panic) and `from_index(i)` is the canonical form `edge_key(x, y)` of the id -/
+abbrev Accepted := C03W4.Accepted
+
+example (s : State) (x y : Nat) : Accepted s x y ↔
+    ∃ i, (step s (.edgeToIndex x y)).2 = .nat i ∧
+      (step s (.edgeFromIndex i)).2 = .pair (edgeKey s.directed x y).1 (edgeKey s.directed x y).2 := Iff.rfl
+
+/-- Every edge id the graph hands out is accepted by `EdgeIndexable::to_index` — the general statement whose
+failure was finding D33.  In every reachable state (any history from the empty graph, directed or not):
+every id yielded by `edges(a)`, by `edges_directed(a, d)`, by `all_edges()` (= `edge_references()`), and —
+in the state after the call — every id returned by `Build::add_edge` and by `Build::update_edge` is accepted
+(no panic), and `from_index(to_index(id))` is the canonical form of `id`.  Moreover an id is accepted iff
+it names an edge of the abstract graph. -/
+theorem C03_edge_ids_handed_out_are_accepted (directed : Bool) (ops : List Op) :
+    let s := (run (State.empty directed) ops).1
+    (∀ a, ∀ e ∈ edgesOf s a, Accepted s e.1 e.2.1) ∧
+    (∀ a d, ∀ e ∈ edgesDirected s a d, Accepted s e.1 e.2.1) ∧
+    (∀ e ∈ allEdges s, Accepted s e.1 e.2.1) ∧
+    (∀ a b w p, (step s (.buildAddEdge a b w)).2 = .optPair (some p) →
+      Accepted (step s (.buildAddEdge a b w)).1 p.1 p.2) ∧
+    (∀ a b w x y, (step s (.buildUpdateEdge a b w)).2 = .pair x y →
+      Accepted (step s (.buildUpdateEdge a b w)).1 x y) ∧
+    (∀ x y, Accepted s x y ↔ (abs s).hasEdge x y = true) := by
+  intro s
+  have h : Inv s := (C03_all_histories directed ops).1
+  exact ⟨fun a e he => C03W4.accepted_edgesOf s h a e he,
+    fun a d e he => C03W4.accepted_edgesDirected s h a d e he,
+    fun e he => C03W4.accepted_allEdges s h e he,
+    fun a b w p ho => C03W4.accepted_buildAddEdge s h a b w p ho,
+    fun a b w x y ho => C03W4.accepted_buildUpdateEdge s h a b w x y ho,
+    C03W4.accepted_iff_hasEdge s⟩
 
 /-- `Build::add_edge` / `Build::update_edge` answer exactly the pair they were given (`None` for
 `add_edge` when the edge exists) — the unordered `OutOk` only asks for a name of that edge. -/
@@ -372,17 +427,21 @@ theorem C03_orders_are_permutations (directed : Bool) (k : Nat) (ops : List Op)
 
 /-- the compact numbering IS the iteration order: `from_index(i)` is the `i`-th element of `nodes()`
 and `to_index` is its inverse (panicking exactly outside the node set / at `node_count` and beyond); the
-same for `EdgeIndexable` against `all_edges()`. -/
+same for `EdgeIndexable` against `all_edges()`, an edge id being looked up under its canonical name
+`edge_key(a, b)` and refused exactly when it names no edge. -/
 theorem C03_numbering_is_iteration_order (s : State) (h : Inv s) :
     (∀ i n, (step s (.fromIndex i)).2 = .nat n ↔ (nodesOf s)[i]? = some n) ∧
     (∀ n i, (step s (.toIndex n)).2 = .nat i ↔ (nodesOf s)[i]? = some n) ∧
     (∀ n, (step s (.toIndex n)).2 = .panic ↔ n ∉ nodesOf s) ∧
     (∀ i, (step s (.fromIndex i)).2 = .panic ↔ nodeCount s ≤ i) ∧
     (∀ i a b, (step s (.edgeFromIndex i)).2 = .pair a b ↔ ∃ w, (allEdges s)[i]? = some (a, b, w)) ∧
-    (∀ a b i, (step s (.edgeToIndex a b)).2 = .nat i ↔ ∃ w, (allEdges s)[i]? = some (a, b, w)) ∧
+    (∀ a b i, (step s (.edgeToIndex a b)).2 = .nat i ↔
+      ∃ w, (allEdges s)[i]? = some ((edgeKey s.directed a b).1, (edgeKey s.directed a b).2, w)) ∧
+    (∀ a b, (step s (.edgeToIndex a b)).2 = .panic ↔ (abs s).hasEdge a b = false) ∧
     (∀ i, (step s (.edgeFromIndex i)).2 = .panic ↔ edgeCount s ≤ i) :=
   ⟨C03W4.fromIndex_iff s, C03W4.toIndex_iff s h, C03W4.toIndex_panic_iff s, C03W4.fromIndex_panic_iff s,
-   C03W4.edgeFromIndex_iff s, C03W4.edgeToIndex_iff s h, C03W4.edgeFromIndex_panic_iff s⟩
+   C03W4.edgeFromIndex_iff s, C03W4.edgeToIndex_iff s h, C03W4.edgeToIndex_panic_iff s,
+   C03W4.edgeFromIndex_panic_iff s⟩
 
 /-- the statement about a whole dump (`DumpOk`: counts, listings, the numbering bijection of nodes and
 of edges consistent with the iterators, `rev`/`last`/`nth` agreeing with the forward iteration, the
@@ -488,7 +547,7 @@ example :
        .allEdges, .nodes, .neighbors 2, .edgeToIndex 2 0, .edgeToIndex 0 2, .buildUpdateEdge 2 0 5] =
     [.optNat none, .optNat none, .optNat none, .optNat none,
      .triples [(1, 2, 7), (1, 1, 9), (0, 2, 1), (0, 1, 4)], .natList [2, 1, 0], .bool true,
-     .triples [(0, 2, 1)], .natList [2, 0], .natList [0], .panic, .nat 0, .pair 2 0] := by decide
+     .triples [(0, 2, 1)], .natList [2, 0], .natList [0], .nat 0, .nat 0, .pair 2 0] := by decide
 -- a dump the check accepts / rejects (numbering not the inverse of from_index)
 example :
     C03Dump.dumpOkB (specRun (SG.empty true) [.addEdge 0 1 5]) 2
